@@ -8,6 +8,8 @@ import IofloModel.Lemmas.ImportsCold4
 import IofloModel.Lemmas.ImportsCold5
 import IofloModel.Lemmas.ImportsCold6
 import IofloModel.Lemmas.ImportsCold7
+import IofloModel.Lemmas.ImportsAll0
+import IofloModel.Lemmas.ImportsAll1
 /-!
 # C01 — every ioflo module imports in a fresh interpreter, in any order
 
@@ -28,17 +30,23 @@ theorem domain_chunks : graph.domain.all (fun m => domainChunks.any (·.contains
 
 theorem chunks_le : domainChunks.length ≤ 8 := by decide
 
-theorem chunk_ok : ∀ i, i < 8 →
-    coldChunkOk graph root (staleFrom graph) (domainChunks.getD i []) = true
-  | 0, _ => coldChunk0
-  | 1, _ => coldChunk1
-  | 2, _ => coldChunk2
-  | 3, _ => coldChunk3
-  | 4, _ => coldChunk4
-  | 5, _ => coldChunk5
-  | 6, _ => coldChunk6
-  | 7, _ => coldChunk7
+theorem pairChunks_le : pairChunks.length ≤ 8 := by decide
+
+theorem chunk_all : ∀ i, i < 8 →
+    chunkOk graph root (staleFrom graph) (domainChunks.getD i []) (pairChunks.getD i []) = true
+  | 0, _ => chunk0
+  | 1, _ => chunk1
+  | 2, _ => chunk2
+  | 3, _ => chunk3
+  | 4, _ => chunk4
+  | 5, _ => chunk5
+  | 6, _ => chunk6
+  | 7, _ => chunk7
   | n + 8, h => absurd h (by omega)
+
+theorem chunk_ok (i : Nat) (h : i < 8) :
+    coldChunkOk graph root (staleFrom graph) (domainChunks.getD i []) = true :=
+  cold_of_chunkOk _ _ _ _ _ (chunk_all i h)
 
 /-- all chunks go through the same cold import of the root package -/
 theorem cold_via_root : ∀ m ∈ graph.domain,
@@ -206,6 +214,130 @@ theorem C01_first_noncore_partial (pre : List Mod) (m : Mod)
     simp only [importAll, List.map_cons, List.cons_append]
     show none :: (List.map (fun _ => none) rest ++ [(importChain graph rootState (graph.chain m)).2]) = _
     rw [hcold]
+
+/-! ## ordered pairs -/
+
+/-- the table of ordered pairs: for every module `a` the other modules of its package and the modules that
+(transitively, as far as the import statements show) import `a` -/
+def pairTable : List (Mod × List Mod) := pairChunks.flatten
+
+theorem pair_table (p : Mod × List Mod) (hp : p ∈ pairTable) (hs : staleFrom graph p.1 = false)
+    (hn : rootState.isPresent p.1 = false) :
+    (importChain graph rootState (graph.chain p.1)).2 = none ∧
+    ∀ m ∈ p.2, staleFrom graph m = false →
+      (importChain graph (importChain graph rootState (graph.chain p.1)).1 (graph.chain m)).2 = none := by
+  unfold pairTable at hp
+  obtain ⟨c, hc, hpc⟩ := List.mem_flatten.mp hp
+  obtain ⟨i, hi, rfl⟩ := List.getElem_of_mem hc
+  have hk := chunk_all i (Nat.lt_of_lt_of_le hi pairChunks_le)
+  have hget : pairChunks.getD i [] = pairChunks[i] := by
+    rw [List.getD_eq_getElem?_getD, List.getElem?_eq_getElem hi]
+    rfl
+  rw [hget] at hk
+  have := pairs_of_chunkOk graph root (staleFrom graph) _ _ hk p hpc hs
+  unfold rootState at hn ⊢
+  exact this hn
+
+/-- importing from a fresh interpreter and from the state after `import ioflo` is the same for modules of the tree -/
+theorem import_fresh_eq (x : Mod) (hx : x ∈ graph.domain) :
+    importModule graph (fresh graph) x = importModule graph rootState x := by
+  have h := cold_via_root x hx
+  unfold cold at h
+  rw [h]
+  unfold rootState importModule
+  rfl
+
+theorem importAll_fresh_eq (x : Mod) (rest : List Mod) (hx : x ∈ graph.domain) :
+    importAll graph (fresh graph) (x :: rest) = importAll graph rootState (x :: rest) := by
+  simp only [importAll, import_fresh_eq x hx]
+
+/-- the hypotheses of `importAll_two` at `rootState` for a pair of the table -/
+theorem pair_both_orders (a m : Mod) (ha : a ∈ graph.domain) (hm : m ∈ graph.domain)
+    (hsa : staleFrom graph a = false) (hsm : staleFrom graph m = false)
+    (ham : ∃ ms, (a, ms) ∈ pairTable ∧ m ∈ ms) :
+    (importModule graph rootState a).2 = none ∧
+    (importModule graph (importModule graph rootState a).1 m).2 = none := by
+  obtain ⟨ms, hp, hmm⟩ := ham
+  have ca : (importModule graph rootState a).2 = none := by
+    rw [← import_fresh_eq a ha]; exact C01_each_cold_partial a ha hsa
+  refine ⟨ca, ?_⟩
+  by_cases hpa : rootState.isPresent a = true
+  · -- `a` is loaded by `import ioflo` itself: nothing happens, then `m` as from `rootState`
+    rw [importModule_present graph rootState a hpa]
+    rw [← import_fresh_eq m hm]; exact C01_each_cold_partial m hm hsm
+  · have hpa' : rootState.isPresent a = false := by simpa using hpa
+    exact (pair_table (a, ms) hp hsa hpa').2 m hmm hsm
+
+/-- **C01, ordered pairs.**  For every pair `(a, m)` of the table (modules of the same package; `m` importing `a`)
+outside D01c: `import a; import m` in a fresh interpreter succeeds. -/
+theorem C01_pair_partial (a m : Mod) (ha : a ∈ graph.domain) (hm : m ∈ graph.domain)
+    (hsa : staleFrom graph a = false) (hsm : staleFrom graph m = false)
+    (ham : ∃ ms, (a, ms) ∈ pairTable ∧ m ∈ ms) :
+    (importAll graph (fresh graph) [a, m]).2 = [none, none] := by
+  have h := pair_both_orders a m ha hm hsa hsm ham
+  rw [importAll_fresh_eq a [m] ha]
+  simp only [importAll, h.1, h.2]
+
+/-- **C01, any order over the core and two more modules.**  Let `a` and `m` be two modules of the tree outside D01c
+that are related in both directions by the pair table (e.g. any two modules of one package).  Then in EVERY sequence
+of imports made of `a`, `m` and modules that `import ioflo` itself loads — any order, any repetitions — every import
+succeeds. -/
+theorem C01_any_order_pair_partial (a m : Mod) (ha : a ∈ graph.domain) (hm : m ∈ graph.domain)
+    (hsa : staleFrom graph a = false) (hsm : staleFrom graph m = false)
+    (ham : ∃ ms, (a, ms) ∈ pairTable ∧ m ∈ ms) (hma : ∃ ms, (m, ms) ∈ pairTable ∧ a ∈ ms)
+    (h : List Mod)
+    (hh : ∀ x ∈ h, (x ∈ graph.domain ∧ rootState.isPresent x = true) ∨ x = a ∨ x = m) :
+    ∀ e ∈ (importAll graph (fresh graph) h).2, e = none := by
+  have h1 := pair_both_orders a m ha hm hsa hsm ham
+  have h2 := pair_both_orders m a hm ha hsm hsa hma
+  have key := importAll_two graph rootState (fun x => x ∈ graph.domain ∧ rootState.isPresent x = true) a m
+    (fun x hx => hx.2) h1.1 h2.1 h1.2 h2.2 h hh
+  cases h with
+  | nil => intro e he; simp [importAll] at he
+  | cons x rest =>
+    have hx : x ∈ graph.domain := by
+      rcases hh x (List.mem_cons_self ..) with h | rfl | rfl
+      · exact h.1
+      · exact ha
+      · exact hm
+    rw [importAll_fresh_eq x rest hx]
+    exact key
+
+/-- non-vacuity: the table is not empty, and e.g. relates modules in both directions -/
+example : 100 < (pairTable.map (fun p => p.2.length)).sum := by decide +kernel
+
+/-! ## the whole tree in one interpreter -/
+
+/-- every module of the tree outside D01c, in the order of their names -/
+def allSorted : List Mod := graph.domain.filter (fun m => !staleFrom graph m)
+
+theorem sweep_from_fresh (ms : List Mod) (hne : ∀ x ∈ ms.head?, x ∈ graph.domain)
+    (h : ∀ e ∈ (importAll graph rootState ms).2, e = none) :
+    ∀ e ∈ (importAll graph (fresh graph) ms).2, e = none := by
+  cases ms with
+  | nil => intro e he; simp [importAll] at he
+  | cons x rest =>
+    rw [importAll_fresh_eq x rest (hne x (by simp))]
+    exact h
+
+/-- **C01, the whole tree.**  Importing every module of the tree (outside D01c) into one fresh interpreter, one
+after the other in the order of their names, succeeds for every module; and so it does in the reverse order. -/
+theorem C01_whole_tree_partial :
+    (∀ e ∈ (importAll graph (fresh graph) allSorted).2, e = none) ∧
+    (∀ e ∈ (importAll graph (fresh graph) allSorted.reverse).2, e = none) := by
+  have hdom : ∀ x ∈ allSorted, x ∈ graph.domain := by
+    intro x hx
+    unfold allSorted at hx
+    exact (List.mem_filter.mp hx).1
+  constructor
+  · apply sweep_from_fresh
+    · intro x hx
+      exact hdom x (List.mem_of_mem_head? hx)
+    · exact all_of_sweepOk graph root _ sweep0
+  · apply sweep_from_fresh
+    · intro x hx
+      exact hdom x (List.mem_reverse.mp (List.mem_of_mem_head? hx))
+    · exact all_of_sweepOk graph root _ sweep1
 
 /-! ## namespaces of finished modules are stable -/
 
